@@ -155,7 +155,7 @@ def inlineTag (inl : List B → List B) (tag : List B) : List B :=
         if d == [] then tag
         else
           let attrs' := match lastIdx styleN p.attrs with
-            | some si => p.attrs.modify si (fun a => { a with value := mergeStyle a.value d, raw := [] })
+            | some si => p.attrs.modify si (fun a => { a with value := mergeStyle a.value d, hasValue := true, raw := [] })
             | none => p.attrs ++ [⟨[32], styleN, d, dq, true, []⟩]
           rebuild p.name attrs' ((closing tag p))
 
